@@ -14,6 +14,8 @@ func init() {
 
 func runC05(p *Prog, r *Report) {
 	crossCutting(p, r, "C05.X", "protocol/rep", "protocol/respondent", "protocol/xrep", "protocol/xrespondent")
+	r.Describe("C05.12/id-freshness", "a pipe id is not handed out again as soon as it is freed: raw REP/RESPONDENT route replies by pipes[id] alone, so a late reply for a departed connection must miss")
+	allocatorFreshness(p, r, "C05.12/id-freshness")
 	lockBalance(p, r, "C05.7/E1", "protocol/rep", "protocol/respondent", "protocol/xrep", "protocol/xrespondent")
 	q := NewQ(p, r)
 	for _, rel := range []string{"protocol/rep", "protocol/respondent"} {
